@@ -319,7 +319,7 @@ func c05Worker(ctx *rt.Ctx, job *rt.Job) []*rt.Violation {
 	job.Decode(&a)
 	switch a.Family {
 	case "small":
-		dss := spaceADatasets(a.Rows)
+		dss := append(spaceADatasets(a.Rows), shapeDatasets(spaceA2Shapes, a.Rows)...)
 		for di, rows := range dss {
 			if di%job.NShards != job.Shard {
 				continue
